@@ -15,6 +15,7 @@ NA = {
 TECH = "deterministic simulation: seeded session histories with fault injection, refinement check against an executable reference model"
 CLAIMED = {
  "C01": dict(level="exploration", text="seeded search over mutation histories x alias graphs x hasher configurations x ill-formed statements; every variable compared with a deep-copy reference model after every statement; evidence, not proof", ref="DESIGN.md section 5 (C01)", technique=TECH),
+ "C09": dict(level="exploration", text="seeded histories of every dictionary operation the property lists over a key pool of numerically equal values of different levels and representations (also nested in lists, vectors, dicts), each run under one hasher configuration (per-instance or shared seeds; full, constant or two-bit key hash); every result and every variable compared with a finite-map-over-equality-classes model after every operation", ref="DESIGN.md section 5 (C09)", technique="deterministic simulation: seeded operation histories with the hasher behind a seam (seed and degradation chosen per run), refinement against an executable finite-map model"),
  "C14": dict(level="fault_enumeration", text="every global builtin found in the live Env x every tuple of 0..2 arguments from a 60-value pool (thorough: the whole grid; quick: arity 0/1 completely plus seeded samples of arity 2/3), half of the calls inside try/catch, pool values held in session variables, liveness probe in the same session; plus the other profiles' generated histories with ill-formed statements; oracle: value or catchable error, never a panic, untouched variables keep their values", ref="DESIGN.md section 5 (C14)", technique="deterministic simulation: fault enumeration over builtin x argument grid inside persistent sessions, crash capture (catch_unwind), recovery invariant checked after every fault"),
 }
 PENDING = ["C02","C05","C09","C11","C12","C17"]
